@@ -39,7 +39,12 @@ the closed stream later satisfiable reads may fail too (the statement says "only
 failed read's future); `post_read_raises_unsatisfiable` - after an UnsatisfiableReadError close a later
 read call may raise UnsatisfiableReadError instead of StreamClosedError; `connect_after_close`.
 
-Known finding F-C13-stale-read-state (open, see findings_inbox/C13-stale-read-state.md): the read
+Bytes that a read_into had received into the caller's buffer before it failed count as buffered (they
+were never delivered by a successful read): a later read_until_close on the closed stream must return
+them, exactly as after a failed read_bytes (follow-up finding F-C13-followup: the first repair dropped
+them; replays/C13/F-followup-*.json).
+
+Known finding F-C13-stale-read-state (fixed in /repo 7d2d3db, see findings_inbox/C13-stale-read-state.md): the read
 parameters of a read that failed at close are not reset, so a later read on the closed stream is
 evaluated against them (read_bytes returns an int after a failed read_into; a delimited read returns
 data cut at the previous read's delimiter).  Those two input classes carry narrow signatures and are
@@ -227,21 +232,6 @@ def case_s(draw):
         "cause_burst": draw(st.one_of(st.none(), burst, burst, st.just([100000]))),
         "post": post,
     }
-
-
-class _Mismatch(Exception):
-    pass
-
-
-class _Dry:
-    """ctx stand-in for a trial evaluation of the model"""
-    excluded = {}
-
-    def fail(self, clause, detail=None, sig=None):
-        raise _Mismatch(clause)
-
-
-_DRY = _Dry()
 
 
 class Fut:
@@ -467,22 +457,6 @@ async def scenario(ctx, case, labels, out):
                 cur[0] = None
                 S["clean"] = False
             else:
-                if rd.post and S.get("alt_skip"):
-                    # EITHER: bytes a failed read_into had already moved into the caller's buffer may or may
-                    # not be offered again.  Model A = still buffered (rem), model B = gone.
-                    kw = dict(detail=None, may_fail=True, sig_suffix=None)
-                    try:
-                        M.verdict(_DRY, P, rd, rem, ended, [s.error], s, **kw)
-                    except _Mismatch:
-                        try:
-                            M.verdict(_DRY, P, rd, rem[S["alt_skip"]:], ended, [s.error], s, **kw)
-                        except _Mismatch:
-                            pass  # neither: report against model A below
-                        else:
-                            S["cursor"] += S["alt_skip"]
-                            rem = rem[S["alt_skip"]:]
-                            labels.add("failed_read_into_bytes_not_offered_again")
-                    S["alt_skip"] = 0
                 excl0 = sum(ctx.excluded.values())
                 status, k = M.verdict(ctx, P, rd, rem, ended, [s.error], s, detail={"post": rd.post, "cause": case["cause"]},
                                       may_fail=rd.post and not S["clean"], sig_suffix=suffix)
@@ -507,9 +481,8 @@ async def scenario(ctx, case, labels, out):
                             labels.add("pending_read_unsatisfiable")
                         S["clean"] = False
                         if rd.spec[0] == "into":
-                            S["taint"] = "into"
-                            if exp in ("fail", "pending"):
-                                S["alt_skip"] = len(rem)  # all of it went into the caller's buffer
+                            S["taint"] = "into"  # bytes received into the caller's buffer stay buffered (model)
+                            labels.add("failed_read_into")
                         elif exp == "unsat" and S["taint"] is None:
                             S["taint"] = "unsat"
         # write bookkeeping while open
